@@ -345,6 +345,15 @@ func (c *Client) Recv(timeout time.Duration) (mqttp.IFace, error) {
 					return sa, nil
 				}
 			}
+			if err != nil && c.Ver == mqttp.ProtocolV50 && len(c.LastRaw) >= 4 && c.LastRaw[0]>>4 == 11 {
+				// ... and a v5 UNSUBACK (whatever it carries): keep the identifier, that is all the callers look at
+				if x, e := mqttp.New(mqttp.ProtocolV50, mqttp.UNSUBACK); e == nil {
+					if ua, ok := x.(*mqttp.UnSubAck); ok {
+						ua.SetPacketID(mqttp.IDType(uint16(c.LastRaw[2])<<8 | uint16(c.LastRaw[3])))
+						return ua, nil
+					}
+				}
+			}
 			if err != nil {
 				return nil, fmt.Errorf("decode: %v", err)
 			}
